@@ -142,8 +142,8 @@ func shrinkTCase(c *TCase) []any {
 type tRun struct {
 	prop string
 	e    *simkit.Env
-	c *TCase
-	n gen.Node
+	c    *TCase
+	n    gen.Node
 
 	target   gen.PID   // process under test (for meta: the owner process)
 	metaID   gen.Alias // meta kind
